@@ -61,8 +61,16 @@ THEOREMS = [P + n for n in (
     'means_nan_aware', 'means_drop_nan_rows', 'means_fixed_single_row', 'sem_nonneg',
     # model permutations
     'model_perm_equivariant', 'pairwise_perm_equivariant',
-    # rank-sum tests (partial)
-    'ranksum_mat_symm_diag_partial')]
+    # rank-sum tests (partial for an arbitrary external test; full with the modelled statistic)
+    'ranksum_mat_symm_diag_partial',
+    # round 3: formula / call-site / dispatch leaves
+    't_stat_formulas', 'p_value_formulas', 'routes_forward_dof_and_variances', 'dispatch_coherent',
+    'boot_leaves_agree',
+    # round 3: the Wilcoxon signed-rank statistic behind the rank-sum tests
+    'signedrank_swap', 'signedrank_subject_perm', 'signedrank_value_perm', 'signedrank_zero_discarded',
+    'signedrank_total', 'wilcoxon_pair_symm', 'wilcoxon_pair_subject_perm', 'ranksum_mat_modelled',
+    # round 3: confidence intervals, error bars, bootstrap tests on > 2-D evaluations
+    'ci_prop_cut', 'result_ci_ordered_symmetric', 'util_errorbars', 'bootstrap_nd_one_sided')]
 RULE = ('cases come from one PRNG. dual/correct1d: variances in eighths, n_rdm/n_pattern None or '
         '2..30. contrast: m = 1..7. extract: covariance input 0/1/2/3-D (symmetric PSD in '
         'eighths, sometimes arbitrary), with/without the two noise-ceiling rows, 1..6 models. '
@@ -73,7 +81,13 @@ RULE = ('cases come from one PRNG. dual/correct1d: variances in eighths, n_rdm/n
         'pair/zero/nc_tests), a random model '
         'permutation. fixed: eval_fixed with 1..4 models, 2..9 subjects, optionally reloaded '
         'from its dict. evaluator: every evaluation function on 3..9 RDMs of 4..6 conditions '
-        '(both orders of the two counts), 1..3 fixed models, 6..10 bootstrap samples, seeded. A case is non-trivial unless it is an uncorrected single number or has '
+        '(both orders of the two counts), 1..3 fixed models, 6..10 bootstrap samples, seeded. '
+        'Round 3: result cases carry a confidence level (default or 50..99.9 %), a model with a negative '
+        'effect in 25 %, variances at / below the eps clamp in 6 %; boot cases have 2..5-D evaluations with '
+        'scalar, per-sample (2,N) and evaluator-shaped (2,N,n_cv[,3]) ceilings, all three bootstrap tests '
+        'compared for every dimension; ranksum cases have 2..11 subjects, generic values (exact null) or a '
+        'dyadic grid with tied |differences| and zero differences, subjects without values (NaN p). '
+        'A case is non-trivial unless it is an uncorrected single number or has '
         'one model without variances; distinct = distinct full input.')
 BRANCHES = ['dual:plain', 'dual:small_sample', 'dual:one_n', 'c1d:both', 'c1d:pattern', 'c1d:rdm',
             'c1d:none', 'contrast', 'extract:0d', 'extract:1d', 'extract:1d_nc', 'extract:2d',
@@ -86,16 +100,26 @@ BRANCHES = ['dual:plain', 'dual:small_sample', 'dual:one_n', 'c1d:both', 'c1d:pa
             'evaluator:fixed', 'evaluator:bootstrap', 'evaluator:bootstrap_rdm',
             'evaluator:bootstrap_pattern', 'evaluator:dual_bootstrap', 'evaluator:bootstrap_crossval',
             'evaluator:bootstrap_crossval_rdm', 'evaluator:bootstrap_crossval_pattern',
-            'evaluator:n_cond_lt_n_rdm', 'evaluator:n_rdm_lt_n_cond']
+            'evaluator:n_cond_lt_n_rdm', 'evaluator:n_rdm_lt_n_cond',
+            # round 3
+            'ranksum:generic', 'ranksum:ties', 'ranksum:zeros', 'ranksum:nan_subject', 'ranksum:small_n',
+            'boot:ndim_onesided', 'boot:nc_nd', 'boot:ndim4', 'boot:ndim5', 'boot:ties',
+            'result:ci_default', 'result:ci_pct', 'result:neg_effect', 'result:m_ge4_cov2d',
+            'result:dof1', 'result:tiny_var']
 ASSUMPTIONS = [
     'numpy float64 evaluation of the closed-form formulas is within 1e-9 relative of the exact value',
     'scipy.stats.t.cdf / t.ppf (contract: monotone, F(0)=1/2, range [0,1]) are applied by the '
     'harness to the t statistics of the model; the contract is sampled in the oracle',
-    'scipy.stats.wilcoxon (contract: symmetric in its two samples, p in [0,1]) is applied by the '
-    'harness to the reduced data of the model (rank-sum part: partial)',
+    'rank-sum tests: the model computes the signed-rank statistic (differences, zeros discarded, '
+    'tie-averaged ranks of |d|, W+, W-); the null distribution is a contract (IsSignedRankNull: a function '
+    'of W+, W- and the multiset of ranks, symmetric in W+ / W-, values in [0,1]) instantiated in the '
+    'harness by the exact sign-flip distribution over the model\'s ranks (= scipy.stats.wilcoxon '
+    'method="auto" for at most 13 subjects, checked against scipy 1.18 on 900 random samples with ties / zeros)',
     'evaluation arrays: a failed bootstrap sample is a whole row of NaN (as every evaluator '
     'writes it); NaN inside the trailing axes leaves at least one value per (sample, model)']
-TRUSTED_EXTRA = ['scipy.stats.t.cdf, t.ppf, wilcoxon, ttest_1samp, ttest_rel, sem (reference in the oracle)']
+TRUSTED_EXTRA = ['scipy.stats.t.cdf, t.ppf, ttest_1samp, ttest_rel, sem (reference in the oracle)',
+                 'scipy.stats.wilcoxon: only its null distribution (the .statistic is compared with the model)',
+                 'harness/leaves/C06.py: source-to-leaf derivations (clamps, call-site bindings, dispatch codes)']
 
 EPS = float(np.finfo(float).eps)
 RTOL, ATOL = 1e-9, 1e-12
@@ -239,9 +263,15 @@ def _gen_result(rng, tier):
             ncl = np.array([0.5, 0.75])
     else:
         ncl = np.array([rng.randint(0, 16) / 16, rng.randint(16, 24) / 16])
+    if rng.random() < 0.25:
+        ev[:, rng.randrange(m)] -= 1.0          # a model with a clearly negative effect
+    if var is not None and rng.random() < 0.06:
+        # variances at / below the eps clamp of the t statistics (exact scaling by a power of two)
+        var = (np.asarray(var, dtype=float) * rng.choice([0.0, 2.0 ** -70])).tolist()
     perm = list(range(m))
     rng.shuffle(perm)
     return {'op': 'result', 'cv_method': cv, 'evals': _lst(ev), 'var': var, 'var_kind': kind,
+            'ci_pct': rng.choice([None, None, 50, 68.27, 90, 95, 99, 99.9]),
             'nc_rows': nc, 'noise_ceiling': _lst(ncl),
             'dof': 1 if rng.random() < 0.05 else rng.randint(2, 30),
             'n_rdm': _opt_n(rng), 'n_pattern': _opt_n(rng), 'perm': perm}
@@ -250,7 +280,8 @@ def _gen_result(rng, tier):
 def _gen_boot(rng, tier):
     m = rng.randint(1, 5)
     nB = rng.randint(3, 12)
-    shape = rng.choice([[], [], [], [rng.randint(1, 3)], [2, 2]])
+    shape = rng.choice([[], [], [], [rng.randint(1, 3)], [2, 2], [rng.randint(1, 4), rng.randint(1, 2)],
+                        [rng.randint(1, 3), 2, 3]])
     # a coarse grid makes ties between models frequent; shifting decides how often all
     # samples lie on one side of zero / of the noise ceiling
     lo = rng.choice([-8, -8, -2, 1, -12])
@@ -258,10 +289,19 @@ def _gen_boot(rng, tier):
     ev = _gen_evals(rng, nB, m, shape, den=rng.choice([2, 4, 16]), lo=lo, hi=hi,
                     nan_folds=rng.random() < 0.5)
     r = rng.random()
-    if r < 0.5:
+    failed = np.all(np.isnan(ev.reshape(nB, -1)), axis=1)
+    if r < 0.35:
         ncl = np.array([[rng.randint(-4, 12) / 8 for _ in range(nB)],
                         [rng.randint(12, 20) / 8 for _ in range(nB)]])
-        ncl[:, np.isnan(ev.reshape(nB, -1)[:, 0])] = np.nan
+        ncl[:, failed] = np.nan
+    elif r < 0.6 and len(shape) >= 2:
+        # bootstrap_crossval / eval_dual_bootstrap: the ceiling has the repetition axes of the
+        # evaluations but not their fold axis: evaluations (N, m, folds, n_cv[, 3]), ceiling (2, N, n_cv[, 3])
+        tail = shape[1:]
+        ncl = np.array([rng.randint(-4, 20) / 8 for _ in range(2 * nB * int(np.prod(tail)))],
+                       dtype=float).reshape([2, nB] + tail)
+        ncl[1] += 2.0
+        ncl[:, failed] = np.nan
     else:
         ncl = np.array([rng.randint(-12, 12) / 8, 2.0])
     perm = list(range(m))
@@ -272,14 +312,31 @@ def _gen_boot(rng, tier):
 def _gen_ranksum(rng, tier):
     m = rng.randint(1, 4)
     nB = rng.randint(1, 4)
-    n = rng.randint(6, 10)
-    # generic (non-dyadic) values: no exact ties / zeros for wilcoxon
-    ev = np.array([rng.uniform(-0.3, 0.9) for _ in range(nB * m * n)]).reshape(nB, m, n)
+    mode = rng.choice(['generic', 'generic', 'ties', 'ties', 'zeros', 'zeros', 'coarse'])
+    n = rng.randint(2, 5) if rng.random() < 0.2 else rng.randint(6, 11)
+    if mode == 'generic':
+        # generic (non-dyadic) values: no exact ties / zeros, scipy's exact null distribution
+        ev = np.array([rng.uniform(-0.3, 0.9) for _ in range(nB * m * n)]).reshape(nB, m, n)
+        c = rng.uniform(0.2, 0.6)
+    else:
+        # a coarse dyadic grid, identical over the bootstrap rows so that the reduced data stay on
+        # the grid: tied |differences|, zero differences (equal values of two models in a subject,
+        # a value equal to the ceiling / to zero)
+        den = {'ties': 8, 'zeros': 2, 'coarse': 1}[mode]
+        base = np.array([rng.randint(-2 * den // 2 - 1, 3 * den // 2 + 1) / den for _ in range(m * n)],
+                        dtype=float).reshape(m, n)
+        if mode == 'zeros' and m >= 2:
+            for sidx in rng.sample(range(n), max(1, n // 3)):
+                base[1, sidx] = base[0, sidx]
+        ev = np.repeat(base[None], nB, axis=0)
+        c = rng.randint(0, den) / den
     if nB >= 3 and rng.random() < 0.5:
         ev[rng.randrange(nB)] = np.nan
+    if rng.random() < 0.2:
+        ev[:, rng.randrange(m), rng.randrange(n)] = np.nan     # a subject without any value: NaN p-values
     perm = list(range(m))
     rng.shuffle(perm)
-    return {'op': 'ranksum', 'evals': _lst(ev), 'noise_ceiling': [rng.uniform(0.2, 0.6), 0.95], 'perm': perm}
+    return {'op': 'ranksum', 'evals': _lst(ev), 'noise_ceiling': [c, 2.0], 'perm': perm, 'mode': mode}
 
 
 def _gen_fixed(rng, tier):
@@ -334,7 +391,7 @@ def generate(rng, tier):
         yield _gen_result(rng, tier)
     for _ in range(70 * mult):
         yield _gen_boot(rng, tier)
-    for _ in range(16 * mult):
+    for _ in range(48 if tier == 'quick' else 600):     # every route re-runs scipy's permutation test
         yield _gen_ranksum(rng, tier)
     for _ in range(50 * mult):
         yield _gen_fixed(rng, tier)
@@ -417,10 +474,32 @@ def _result_obs(case, test_type, perm=None):
                'model_var': _canon(r.model_var), 'diff_var': _canon(r.diff_var),
                'nc_var': _canon(r.noise_ceil_var)}
         if test_type == 't-test':
-            out['ci'] = _canon(_catch(lambda: r.get_ci(0.95, 't-test'))) if r.model_var is not None else None
+            pct = case.get('ci_pct')
+            level = 0.95 if pct is None else float(pct) / 100
+            eb = 'ci' if pct is None else f'ci{pct}'
+            has = r.model_var is not None
+            out['ci'] = _canon(_catch(lambda: r.get_ci(level, 't-test'))) if has else None
+            out['errorbars_ci'] = _canon(_catch(lambda: r.get_errorbars(eb, 't-test'))) if has else None
             # the helper the plotting code uses for the same error bars
             out['errorbars_util'] = _canon(_catch(lambda: iu.get_errorbars(
-                r.model_var, r.evaluations, r.dof, 'sem', 't-test'))) if r.model_var is not None else None
+                r.model_var, r.evaluations, r.dof, 'sem', 't-test'))) if has else None
+            out['errorbars_util_ci'] = _canon(_catch(lambda: iu.get_errorbars(
+                r.model_var, r.evaluations, r.dof, eb, 't-test'))) if has else None
+            nc_in = _arr(case['noise_ceiling'])
+            got_nc = r.get_noise_ceil()
+            out['noise_ceil_kept'] = bool(np.shape(got_nc) == nc_in.shape
+                                          and np.array_equal(got_nc, nc_in, equal_nan=True))
+            out['model_var_kept'] = bool(r.get_model_var() is r.model_var)
+            # an unknown test type is rejected by every wrapper (the final `else` of the dispatch)
+            E_, nc_ = np.array(r.evaluations, dtype=float), np.array(r.noise_ceiling, dtype=float)
+            tries = [lambda: r.test_all('perm-test'), lambda: r.test_pairwise('perm-test'),
+                     lambda: r.test_zero('perm-test'), lambda: r.test_noise('perm-test'),
+                     lambda: iu.all_tests(E_, nc_, 'perm-test', r.model_var, r.diff_var, r.noise_ceil_var, r.dof),
+                     lambda: iu.pair_tests(E_, 'perm-test', r.diff_var, r.dof),
+                     lambda: iu.zero_tests(E_, 'perm-test', r.model_var, r.dof),
+                     lambda: iu.nc_tests(E_, nc_, 'perm-test', r.noise_ceil_var, r.dof)]
+            got_ = [_catch(f) for f in tries]
+            out['rejects_unknown'] = [bool(isinstance(g, dict) and g.get('exc') == 'ValueError') for g in got_]
         out['p_pair'] = _canon(_catch(lambda: r.test_pairwise(test_type)))
         out['p_zero'] = _canon(_catch(lambda: r.test_zero(test_type)))
         out['p_nc'] = _canon(_catch(lambda: r.test_noise(test_type)))
@@ -577,15 +656,33 @@ def _result_req(case, perm=None):
     ncl = _arr(case['noise_ceiling'])
     req = {'evals': _enc(_lst(ev)), 'nB': sh[0], 'm': sh[1], 'shape': sh[2:]}
     if case['op'] == 'result':
+        pct = case.get('ci_pct')
         req.update(op='c06.result', cv_method=case['cv_method'],
-                   nc_lower=_enc(_lst(np.atleast_1d(ncl[0]).ravel())))
+                   nc_lower=_enc(_lst(np.atleast_1d(ncl[0]).ravel())),
+                   nc_upper=_enc(_lst(np.atleast_1d(ncl[1]).ravel())),
+                   dof=int(case.get('dof', 1)), pct=fbits(None if pct is None else float(pct)),
+                   q=fbits(_q_of(case)))
         if var is not None:
             req.update(_var_req(case, var, sh[1]))
     elif case['op'] == 'boot':
-        req.update(op='c06.boot', nc_rows=_enc(_lst(np.atleast_1d(ncl[0]).ravel())))
+        low = np.asarray(ncl[0], dtype=float)
+        req.update(op='c06.boot', nc_lower=_enc(_lst(low)) if low.ndim else fbits(float(low)),
+                   nc_scalar=bool(low.ndim == 0), nc_shape=list(low.shape[1:]))
     else:
-        req.update(op='c06.ranksum', n=sh[2])
+        req.update(op='c06.ranksum', n=sh[2], nc_value=fbits(float(np.nanmean(ncl[0]))))
     return req
+
+
+def _prop_cut(case):
+    """the tail cut off on each side, transcribed independently of the source: (1 - level) / 2"""
+    pct = case.get('ci_pct')
+    level = 0.95 if pct is None else float(pct) / 100
+    return (1 - level) / 2
+
+
+def _q_of(case):
+    """contract: scipy's Student-t quantile at the lower tail"""
+    return float(sst.t.ppf(_prop_cut(case), case.get('dof', 1)))
 
 
 def model_requests(case):
@@ -613,7 +710,7 @@ def model_requests(case):
     if op == 'fixed':
         x = case['x']
         return [{'op': 'c06.fixed', 'x': _enc(x), 'm': len(x), 'n': len(x[0]),
-                 'nc_lower': fbits(case['nc'][0])}]
+                 'nc_lower': fbits(case['nc'][0]), 'nc_upper': fbits(case['nc'][1])}]
     raise ValueError(op)
 
 
@@ -622,18 +719,46 @@ def _un(x):
 
 
 def _p_from_t(t, dof):
-    """the contract: scipy's Student-t CDF applied to the model's statistics"""
+    """the contract: scipy's Student-t CDF applied to the model's statistics; `dof` one number or
+    the three numbers (pair, zero, ceiling) that reach the three tests through one route"""
     if t is None:
         return {'exc': 'ValueError'}
+    d = [dof] * 3 if not isinstance(dof, (list, tuple)) else list(dof)
     with warnings.catch_warnings():
         warnings.simplefilter('ignore')
-        pair = (2 * (1 - sst.t.cdf(np.array(_un(t['pair']), dtype=float), dof))).tolist() \
+        pair = (2 * (1 - sst.t.cdf(np.array(_un(t['pair']), dtype=float), d[0]))).tolist() \
             if t['pair'] is not None else None
-        zero = (1 - sst.t.cdf(np.array(_un(t['zero']), dtype=float), dof)).tolist() \
+        zero = (1 - sst.t.cdf(np.array(_un(t['zero']), dtype=float), d[1])).tolist() \
             if t['zero'] is not None else None
-        nc = (2 * (1 - sst.t.cdf(np.array(_un(t['nc']), dtype=float), dof))).tolist() \
+        nc = (2 * (1 - sst.t.cdf(np.array(_un(t['nc']), dtype=float), d[2]))).tolist() \
             if t.get('nc') is not None else None
     return pair, zero, nc
+
+
+# which dof list of the driver's `dof` answer belongs to which public route
+ROUTE_DOF = {'accessors': 'single', 'test_all': 'all', 'util.all_tests': 'util_all', 'util.single': 'util_single'}
+
+
+def _sr_null(st):
+    """contract of the external null distribution (scipy.stats.wilcoxon, method='auto', at most 13
+    subjects): the exact two-sided p-value under independent fair sign flips of the ranks —
+    computed here from the MODEL's statistic (W+, the ranks), never from the data."""
+    if st is None:
+        return None                     # a missing value: scipy propagates NaN
+    plus = unfbits(st['plus'])
+    ranks = [int(round(2 * unfbits(x))) for x in st['ranks']]      # half-integers, doubled
+    target = int(round(2 * plus))
+    counts = {0: 1}
+    for r in ranks:
+        nxt = {}
+        for w, k in counts.items():
+            nxt[w] = nxt.get(w, 0) + k
+            nxt[w + r] = nxt.get(w + r, 0) + k
+        counts = nxt
+    tot = 2 ** len(ranks)
+    le = sum(k for w, k in counts.items() if w <= target)
+    ge = sum(k for w, k in counts.items() if w >= target)
+    return min(1.0, 2 * min(le, ge) / tot)
 
 
 def _vars_model(v):
@@ -649,33 +774,42 @@ def _result_model(case, a):
         if a.get('vars') is None:
             no = {'exc': 'ValueError'}
             out.update(sem=None, errorbars=[None, None], errorbars_util=None, model_var=None, diff_var=None, nc_var=None,
-                       ci=None, p_pair=no, p_zero=no, p_nc=no, p_all=no)
+                       ci=None, errorbars_ci=None, errorbars_util_ci=None, p_pair=no, p_zero=no, p_nc=no, p_all=no)
             return out
         out.update(_vars_model(a['vars']))
         sem = _un(a['sem'])
-        out.update(sem=sem, errorbars=[sem, sem], errorbars_util=[sem, sem])
-        q = float(sst.t.ppf(0.025, case['dof']))
-        mm = out['means']
-        out['ci'] = [[mi + s * q for mi, s in zip(mm, sem)], [mi - s * q for mi, s in zip(mm, sem)]]
-        pair, zero, nc = _p_from_t(a['t'], case['dof'])
-        out.update(p_pair=pair, p_zero=zero, p_nc=nc, p_all=[pair, zero, nc])
+        out.update(sem=sem, errorbars=[sem, sem], errorbars_util=_un(a['util_eb_sem']))
+        # the quantile was taken at the harness' transcription of the tail; the model's tail
+        # (leaves ciPropCut / ebCiPercent / ebCiDefault / utilPropCut / utilCiDefault) must be that one
+        pc = _un(a['propcut'])
+        if not all(close(x, _prop_cut(case), 1e-12, 1e-15) for x in pc):
+            return {'model_error': f'tail of the confidence interval {pc} != {_prop_cut(case)}'}
+        out['ci'] = _un(a['ci']) if a.get('ci') is not None else None
+        out['errorbars_ci'] = _un(a['eb_ci']) if a.get('eb_ci') is not None else None
+        out['errorbars_util_ci'] = _un(a['util_eb_ci'])
+        routes = {}
+        for route, key in ROUTE_DOF.items():
+            routes[route] = list(_p_from_t(a['t'], a['dof'][key])) if a['t'] is not None else None
+        pair, zero, nc = routes['accessors']
+        out.update(p_pair=pair, p_zero=zero, p_nc=nc, p_all=routes['test_all'], p_routes=routes)
         return out
     if op == 'boot':
         pair = _un(a['pair'])
         zero = _un(a['zero']) if 'zero' in a else None
         nc = _un(a['nc']) if 'nc' in a else None
         return {'p_pair': pair, 'p_zero': zero, 'p_nc': nc, 'p_all': [pair, zero, nc]}
-    # ranksum: the external test is applied to the model's reduced data
-    data = [np.array(_un(row), dtype=float) for row in a]
-    m = len(data)
-    c = float(np.nanmean(_arr(case['noise_ceiling'])[0]))
-    with warnings.catch_warnings():
-        warnings.simplefilter('ignore')
-        pair = [[1.0 if i == j else float(sst.wilcoxon(data[min(i, j)], data[max(i, j)]).pvalue)
-                 for j in range(m)] for i in range(m)]
-        zero = [float(sst.wilcoxon(d - 0).pvalue) for d in data]
-        nc = [float(sst.wilcoxon(d - c).pvalue) for d in data]
-    return {'p_pair': pair, 'p_zero': zero, 'p_nc': nc, 'p_all': [pair, zero, nc]}
+    # ranksum: the model computes the signed-rank statistic (W+, W-, ranks); only the null
+    # distribution is external (`_sr_null`, applied to the model's statistic)
+    m = len(a['data'])
+    pair = [[1.0 if i == j else _sr_null(a['pair'][min(i, j)][max(i, j)]) for j in range(m)] for i in range(m)]
+    zero = [_sr_null(x) for x in a['zero']]
+    nc = [_sr_null(x) for x in a['nc']]
+    stat = {'pair': [[None if a['pair'][i][j] is None else
+                      min(unfbits(a['pair'][i][j]['plus']), unfbits(a['pair'][i][j]['minus']))
+                      for j in range(m)] for i in range(m)],
+            'plus_zero': [None if x is None else unfbits(x['plus']) for x in a['zero']]}
+    return {'p_pair': pair, 'p_zero': zero, 'p_nc': nc, 'p_all': [pair, zero, nc], 'stat': stat,
+            'data': _un(a['data'])}
 
 
 def model_result(case, answers):
@@ -702,8 +836,9 @@ def model_result(case, answers):
         n = len(case['x'][0])
         out = {'dof': a['dof'], 'means': _un(a['means']), 'sem': _un(a['sem']), 'cov': _un(a['cov'])}
         out.update(_vars_model(a['vars']))
-        pair, zero, nc = _p_from_t(a['t'], n - 1)
-        out.update(p_pair=pair, p_zero=zero, p_nc=nc)
+        routes = {route: list(_p_from_t(a['t'], a['dof_routes'][key])) for route, key in ROUTE_DOF.items()}
+        pair, zero, nc = routes['accessors']
+        out.update(p_pair=pair, p_zero=zero, p_nc=nc, p_routes=routes)
         return out
     raise ValueError(op)
 
@@ -711,9 +846,13 @@ def model_result(case, answers):
 # ---------------------------------------------------------------- comparison
 
 RESULT_KEYS = {'result': ['means', 'sem', 'errorbars', 'errorbars_util', 'model_var', 'diff_var', 'nc_var', 'ci',
-                          'p_pair', 'p_zero', 'p_nc', 'p_all'],
+                          'errorbars_ci', 'errorbars_util_ci', 'p_pair', 'p_zero', 'p_nc', 'p_all'],
                'boot': ['p_pair', 'p_zero', 'p_nc', 'p_all'],
                'ranksum': ['p_pair', 'p_zero', 'p_nc', 'p_all']}
+
+
+def _abs(x):
+    return deep(lambda v: None if v is None else abs(v), x)
 
 
 def _cmp_obs(op, impl, model, where):
@@ -721,34 +860,68 @@ def _cmp_obs(op, impl, model, where):
         return f'{where}: implementation raised {impl["exc"]} building the Result'
     for k in RESULT_KEYS[op]:
         a, b = impl.get(k), model.get(k)
-        if op == 'boot' and b is None:
-            continue        # >2-D evaluations: zero / ceiling bootstrap tests are not defined per model
-        if op == 'boot' and k == 'p_all' and isinstance(b, list) and (b[1] is None or b[2] is None):
-            continue
         if _is_exc(a) and _is_exc(b):
             continue        # both refuse (no variance estimates); the exception type is not compared
+        if k == 'errorbars_util_ci' and not _is_exc(a) and a is not None and b is not None:
+            # the plotting helper's CI limits: magnitudes (the coded sign is a documented defect of
+            # the helper, outside the property statement; see notes)
+            a, b = _abs(a), _abs(b)
         tol = (PRTOL, PATOL) if k.startswith('p_') else (RTOL, ATOL)
         d = first_diff(a, b, *tol, path=f'{where}.{k}')
         if d:
             return d
-    return _cmp_routes(op, impl, model, where, skip_one_sided=(op == 'boot' and model.get('p_zero') is None))
+    if op == 'result' and model.get('sem') is not None:
+        if impl.get('noise_ceil_kept') is not True:
+            return f'{where}: get_noise_ceil() is not the stored noise ceiling'
+        if impl.get('model_var_kept') is not True:
+            return f'{where}: get_model_var() is not the stored model variance'
+        if not all(impl.get('rejects_unknown', [False])):
+            return (f'{where}: an unknown test_type is not rejected with ValueError by every wrapper '
+                    f'{impl.get("rejects_unknown")}')
+    if op == 'ranksum':
+        d = _cmp_ranksum_stat(model, where)
+        if d:
+            return d
+    return _cmp_routes(op, impl, model, where)
 
 
-def _route_plan(pair_only):
-    """(route, families) to look at.  Bootstrap tests on > 2-D evaluations define only the pair
-    test per model (zero / ceiling tests return one value per fold and the combined wrappers cannot
-    broadcast a per-sample ceiling): there only the pair-test routes are compared."""
-    if pair_only:
-        return [('accessors', ('p_pair',)), ('util.single', ('p_pair',))]
+def _cmp_ranksum_stat(model, where):
+    """the model's statistic against scipy's own (`.statistic`: min(W+, W-) two-sided, W+ for
+    alternative='greater') on the model's reduced data — a reference check of the model"""
+    data = [np.array([np.nan if v is None else v for v in row], dtype=float) for row in model['data']]
+    m = len(data)
+    with warnings.catch_warnings():
+        warnings.simplefilter('ignore')
+        for i in range(m):
+            if np.any(np.isnan(data[i])) or len(data[i]) < 2:
+                continue
+            want = float(sst.wilcoxon(data[i], alternative='greater').statistic)
+            got = model['stat']['plus_zero'][i]
+            if got is None or abs(got - want) > 1e-9:
+                return f'{where}: model W+ of model {i} against zero {got} != scipy {want}'
+            for j in range(i + 1, m):
+                if np.any(np.isnan(data[j])):
+                    continue
+                want = float(sst.wilcoxon(data[i], data[j]).statistic)
+                got = model['stat']['pair'][i][j]
+                if got is None or abs(got - want) > 1e-9:
+                    return f'{where}: model signed-rank statistic of pair {i},{j} {got} != scipy {want}'
+    return None
+
+
+def _route_plan(pair_only=False):
+    """(route, families) to look at: every family through every public route"""
     return [(r, FAMILIES) for r in ROUTES]
 
 
-def _cmp_routes(op, impl, model, where, skip_one_sided=False):
-    """every public route must give the model's p-values"""
-    for route, fams in _route_plan(skip_one_sided):
+def _cmp_routes(op, impl, model, where):
+    """every public route must give the model's p-values (for the t-tests: computed with the
+    degrees of freedom that reach the test through that very route)"""
+    for route, fams in _route_plan():
         got = impl['routes'][route]
-        for fam, a in zip(FAMILIES, got):
-            b = model.get(fam)
+        per_route = model.get('p_routes', {}).get(route)
+        for k, (fam, a) in enumerate(zip(FAMILIES, got)):
+            b = model.get(fam) if per_route is None else per_route[k]
             if b is None or fam not in fams:
                 continue
             if _is_exc(a) and _is_exc(b):
@@ -837,7 +1010,7 @@ def features(case, impl):
         flat = ev.reshape(ev.shape[0], -1)
         nan_folds = bool(np.any(np.isnan(flat[~np.all(np.isnan(flat), axis=1)])))
         nc_per_sample = np.asarray(_arr(case['noise_ceiling'])).ndim > 1
-        f.update(m=ev.shape[1], ndim=ev.ndim, nan_rows=nan_rows, nan_folds=nan_folds,
+        f.update(m=ev.shape[1], ndim=ev.ndim, nan_rows=nan_rows, nan_folds=nan_folds, ndim_gt2=bool(ev.ndim > 2),
                  nc_per_sample=bool(nc_per_sample), identity_perm=case['perm'] == sorted(case['perm']))
         if op == 'result':
             f.update(cv_method=case['cv_method'], var_kind=case['var_kind'], nc_rows=case['nc_rows'])
@@ -853,14 +1026,58 @@ def features(case, impl):
                 br.append('result:fixed')
             if not f['identity_perm']:
                 br.append('result:perm')
+            br.append('result:ci_default' if case.get('ci_pct') is None else 'result:ci_pct')
+            with warnings.catch_warnings():
+                warnings.simplefilter('ignore')
+                mu = np.nanmean(ev.reshape(ev.shape[0], ev.shape[1], -1), axis=(0, 2))
+            if np.any(mu < 0):
+                br.append('result:neg_effect')
+            if ev.shape[1] >= 4 and case['var_kind'] == '2d':
+                br.append('result:m_ge4_cov2d')
+            if case.get('dof') == 1:
+                br.append('result:dof1')
+            if case.get('var') is not None and np.max(np.abs(np.asarray(case['var'], dtype=float))) < 1e-15:
+                br.append('result:tiny_var')
+            f.update(ci_pct=case.get('ci_pct'), dof=case.get('dof'))
         elif op == 'boot':
             br.append('boot:nc_per_sample' if nc_per_sample else 'boot:nc_scalar')
             if nan_rows:
                 br.append('boot:nan_rows')
             if ev.ndim >= 3:
                 br.append('boot:ndim3')
+                br.append('boot:ndim_onesided')
+            if ev.ndim in (4, 5):
+                br.append(f'boot:ndim{ev.ndim}')
+            if np.asarray(_arr(case['noise_ceiling'])).ndim > 2:
+                br.append('boot:nc_nd')
+            with warnings.catch_warnings():
+                warnings.simplefilter('ignore')
+                cells = np.nanmean(ev.reshape(ev.shape[0], ev.shape[1], -1), axis=2)
+            ok = cells[~np.any(np.isnan(cells), axis=1)]
+            if ok.shape[1] >= 2 and any(np.any(ok[:, i] == ok[:, j]) and np.any(ok[:, i] != ok[:, j])
+                                        for i in range(ok.shape[1]) for j in range(i + 1, ok.shape[1])):
+                br.append('boot:ties')
         else:
             br.append('ranksum')
+            mode = case.get('mode', 'generic')
+            f['mode'] = mode
+            with warnings.catch_warnings():
+                warnings.simplefilter('ignore')
+                red = np.nanmean(ev, axis=0)
+            if mode == 'generic':
+                br.append('ranksum:generic')
+            if np.any(np.isnan(red)):
+                br.append('ranksum:nan_subject')
+            else:
+                c = float(np.nanmean(_arr(case['noise_ceiling'])[0]))
+                ds = [red[i] - red[j] for i in range(len(red)) for j in range(i + 1, len(red))] \
+                    + [red[i] for i in range(len(red))] + [red[i] - c for i in range(len(red))]
+                if any(np.any(d == 0) for d in ds):
+                    br.append('ranksum:zeros')
+                if any(len(set(np.abs(d[d != 0]).tolist())) < np.sum(d != 0) for d in ds):
+                    br.append('ranksum:ties')
+            if ev.shape[2] <= 5:
+                br.append('ranksum:small_n')
     elif op == 'evaluator':
         f.update(which=case['which'], n_rdm=case['n_rdm'], n_cond=case['n_cond'], m=len(case['models']),
                  n_cond_lt_n_rdm=case['n_cond'] < case['n_rdm'])
@@ -972,8 +1189,13 @@ def _check_perm(obs_id, obs_perm, perm, keys, what):
     return None
 
 
-def _oracle_pvals(obs, what, m):
-    for k in ('p_pair', 'p_zero', 'p_nc'):
+def _oracle_pvals(obs, what, m, keys=('p_pair', 'p_zero', 'p_nc')):
+    if len(keys) == 3 and all(_is_exc(obs.get(k)) for k in keys):
+        # a combined route (test_all / all_tests) that raises as a whole
+        p = obs.get(keys[0])
+        return _bad(f'{what}: the three tests cannot be computed together ({p["exc"]})', p,
+                    'p-values in [0,1]', violated='exception', key='all')
+    for k in keys:
         p = obs.get(k)
         if p is None:
             continue
@@ -982,7 +1204,11 @@ def _oracle_pvals(obs, what, m):
                         violated='exception', key=k)
         if not _in01(p):
             return _bad(f'{what}: {k} outside [0,1]', p, '[0,1]', violated='range', key=k)
-    pp = obs.get('p_pair')
+        if k != 'p_pair' and np.shape(np.asarray(deep(lambda v: np.nan if v is None else v, p),
+                                                 dtype=float)) != (m,):
+            return _bad(f'{what}: {k} is not one p-value per model', p, f'{m} p-values',
+                        violated='shape', key=k)
+    pp = obs.get('p_pair') if 'p_pair' in keys else None
     if pp is not None and not _is_exc(pp):
         A = np.asarray(deep(lambda v: np.nan if v is None else v, pp), dtype=float)
         if A.shape != (m, m) or not np.allclose(A, A.T, equal_nan=True):
@@ -1019,6 +1245,21 @@ def _oracle_routes_agree(obs, what, pair_only=False):
     return None
 
 
+def _oracle_exchange(case, tt, o_id, m):
+    """symmetry of the bootstrap pair test itself: exchanging two models must not change their p-value"""
+    for i, j in itertools.combinations(range(m), 2):
+        tr = list(range(m))
+        tr[i], tr[j] = j, i
+        o_tr = _result_obs(case, tt, tr)
+        a, b = o_id['p_pair'], o_tr.get('p_pair') if not _is_exc(o_tr) else None
+        if b is None or _is_exc(a) or _is_exc(b):
+            continue
+        if not _same(a[i][j], b[i][j]):
+            return _bad(f'bootstrap pair test of models {i},{j} changes when the two are exchanged',
+                        b[i][j], a[i][j], violated='permutation')
+    return None
+
+
 def _oracle_result(case):
     op = case['op']
     tt = {'result': 't-test', 'boot': 'bootstrap', 'ranksum': 'ranksum'}[op]
@@ -1030,42 +1271,39 @@ def _oracle_result(case):
     if _is_exc(o_id) or _is_exc(o_pm):
         return _bad('Result cannot be built', o_id, violated='exception')
     has_var = case.get('var') is not None
+    if op == 'boot' and len(_shape_of(ev)) > 2:
+        # the pair test first and completely (range, symmetry, diagonal, permutation, exchange of two
+        # models), so that the known finding about the one-sided tests on > 2-D arrays cannot hide a
+        # defect of the pair test
+        for what, o in (('given order', o_id), ('permuted order', o_pm)):
+            for route in ('accessors', 'util.single'):      # the routes that run the pair test alone
+                r = _oracle_pvals(_route_obs(o, route), f'{tt} ({what}, {route})', m, keys=('p_pair',))
+                if r:
+                    return r
+        r = _check_perm(o_id, o_pm, perm, ['means', 'p_pair'], tt) or _oracle_exchange(case, tt, o_id, m)
+        if r:
+            return r
     for what, o in (('given order', o_id), ('permuted order', o_pm)):
         if op == 'result' and not has_var:
             continue
-        if op == 'boot' and len(_shape_of(ev)) > 2:
-            o = dict(o, p_zero=None, p_nc=None)     # not defined per model for >2-D arrays
-        pair_only = op == 'boot' and len(_shape_of(ev)) > 2
-        for route, fams in _route_plan(pair_only):
+        for route, fams in _route_plan():
             o_r = _route_obs(o, route)
-            if pair_only:
-                o_r = dict(o_r, p_zero=None, p_nc=None)
             r = _oracle_pvals(o_r, f'{tt} ({what}, {route})', m)
             if r:
                 return r
-        r = _oracle_routes_agree(o, f'{tt} ({what})', pair_only)
+        r = _oracle_routes_agree(o, f'{tt} ({what})')
         if r:
             return r
     keys = ['means', 'sem', 'model_var', 'diff_var', 'p_pair', 'p_zero', 'p_nc']
-    if op == 'boot' and len(_shape_of(ev)) > 2:
-        keys = ['means', 'p_pair']
     if op == 'result' and not has_var:
         keys = ['means']
     r = _check_perm(o_id, o_pm, perm, keys, tt)
     if r:
         return r
-    if op == 'boot' and m >= 2:
-        # symmetry of the test itself: exchanging two models must not change their p-value
-        for i, j in itertools.combinations(range(m), 2):
-            tr = list(range(m))
-            tr[i], tr[j] = j, i
-            o_tr = _result_obs(case, tt, tr)
-            a, b = o_id['p_pair'], o_tr.get('p_pair') if not _is_exc(o_tr) else None
-            if b is None or _is_exc(a) or _is_exc(b):
-                continue
-            if not _same(a[i][j], b[i][j]):
-                return _bad(f'bootstrap pair test of models {i},{j} changes when the two are exchanged',
-                            b[i][j], a[i][j], violated='permutation')
+    if op == 'boot':
+        r = _oracle_exchange(case, tt, o_id, m)
+        if r:
+            return r
     # means are the NaN-aware averages
     want = _nan_aware_mean(ev, case.get('cv_method', 'bootstrap'))
     got = o_id['means']
@@ -1079,6 +1317,31 @@ def _oracle_result(case):
     sem = np.asarray(o_id['sem'], dtype=float)
     if np.any(sem < 0) or np.any(np.isnan(sem)):
         return _bad('negative / undefined standard error', o_id['sem'], violated='sem')
+    # every route to the standard-error bars reports that standard error on both sides
+    for key in ('errorbars', 'errorbars_util'):
+        eb = o_id.get(key)
+        if eb is None or _is_exc(eb) or _has_none(eb):
+            continue
+        eb = np.asarray(eb, dtype=float)
+        if eb.shape != (2, m) or not np.allclose(eb, np.array([sem, sem]), rtol=1e-9, atol=1e-12):
+            return _bad(f"the 'sem' error bars ({key}) are not the standard error on both sides",
+                        _lst(eb), _lst(np.array([sem, sem])), violated='sem_routes', key=key)
+    # confidence limits of the Result: ordered around the mean, symmetric, half-width sem * |t quantile|,
+    # and the 'ci' error bars are that non-negative half-width on both sides
+    ci, ebc, mm = o_id.get('ci'), o_id.get('errorbars_ci'), o_id.get('means')
+    if ci is not None and not _is_exc(ci) and not _is_exc(mm) and not _has_none(mm) and not _has_none(ci):
+        lo, hi, mu = (np.asarray(x, dtype=float) for x in (ci[0], ci[1], mm))
+        half = sem * abs(_q_of(case))
+        tol = 1e-9 * (1 + np.abs(mu) + half)
+        if np.any(lo > mu + tol) or np.any(hi < mu - tol) or np.any(np.abs((mu - lo) - (hi - mu)) > tol) \
+                or np.any(np.abs((hi - lo) / 2 - half) > tol):
+            return _bad('confidence limits are not mean -/+ sem * |t quantile|', _lst(np.array([lo, hi])),
+                        _lst(np.array([mu - half, mu + half])), violated='ci')
+        if ebc is not None and not _is_exc(ebc) and not _has_none(ebc):
+            eb = np.asarray(ebc, dtype=float)
+            if np.any(eb < -tol) or np.any(np.abs(eb - half) > tol):
+                return _bad("Result.get_errorbars('ci') is not the non-negative half-width on both sides",
+                            _lst(eb), _lst(np.array([half, half])), violated='ci')
     # the variances are the contrasts of the stored covariance
     r = _oracle_extract({'var': case['var'], 'nc': case['nc_rows'], 'm': m, 'n_rdm': case['n_rdm'],
                          'n_pattern': case['n_pattern']},
@@ -1349,7 +1612,8 @@ def shrink(case, still_fails):
                     break
         if isinstance(cur['noise_ceiling'][0], list):
             c = copy.deepcopy(cur)
-            vals = [v for v in c['noise_ceiling'][0] if v is not None] or [0.5]
+            flat = np.asarray(_arr(c['noise_ceiling'][0]), dtype=float).ravel()
+            vals = [float(v) for v in flat if not math.isnan(v)] or [0.5]
             c['noise_ceiling'] = [vals[0], 2.0]
             if still_fails(c):
                 cur = c
